@@ -55,6 +55,7 @@ def decode_task(ck, task):
         return
     ck.floor("service-1 decode analyses", 1, 0)
     D.check_escape(ck, it, f"{fn} [{tag}]", allowed=("ValueError", tmexc))
+    D.check_no_shared_writes(ck, it, f"{fn} [{tag}]")
     if sub in (0, 9):
         ck.verdict("G-REFUSE", fn, f"undefined {tag} is refused", [] if env.dead else ["accepted"], "every path raises", nontrivial=False)
         return
